@@ -354,6 +354,25 @@ def tlc(module, cfg=None, workers=1, env=None, heap="2g", timeout=1800, extra=No
     return TlcResult(p.returncode, p.stdout, time.time() - t0)
 
 
+def tlaps(module, timeout=600):
+    """Optional strengthening: machine-check spec/proofs/<module>.tla with the TLA+ proof system. Never a verdict about the
+    code: returns (obligations, proved, seconds) or None when the prover is unavailable / stalls."""
+    d = os.path.join(spec_copy(), "proofs")
+    t0 = time.time()
+    try:
+        p = subprocess.run(["tlapm", "--threads", "8", "--cleanfp", module + ".tla"], cwd=d, stdout=subprocess.PIPE, stderr=subprocess.STDOUT,
+                           text=True, timeout=timeout)
+    except (subprocess.TimeoutExpired, FileNotFoundError):
+        return None
+    m = re.search(r"All (\d+) obligations? proved", p.stdout)
+    if m:
+        return int(m.group(1)), int(m.group(1)), round(time.time() - t0, 1)
+    m = re.search(r"(\d+)/(\d+) obligations failed", p.stdout)
+    if m:
+        return int(m.group(2)), int(m.group(2)) - int(m.group(1)), round(time.time() - t0, 1)
+    return None
+
+
 def tlc_must_pass(module, cfg=None, **kw):
     """Model-check a configuration that is expected to hold; anything else is infrastructure."""
     r = tlc(module, cfg, **kw)
